@@ -82,23 +82,25 @@ Print Assumptions engine_rule_is_rule_semantics.
 
 (* the generation rules read on the surface document (triples maps, predicate-object maps, rr:class, graph maps on the
    subject map, language / datatype maps, R2RML 7.4 term types) and read rule by rule on the table the normaliser
-   produces give the same statements: every document of constant / reference / template maps, every table (N-QUADS) *)
-Theorem document_rules_are_rule_table_rules : forall scfg fe tables, s_nquads scfg = true ->
-  forall d0 rules, forallb plain_tm d0 = true -> normalise d0 = Ok rules ->
+   produces give the same statements: every document of constant / reference / template maps, every table, both output
+   formats (with N-TRIPLES a statement exists iff it is placed in at least one graph) *)
+Theorem document_rules_are_rule_table_rules : forall scfg fe tables d0 rules,
+  forallb plain_tm d0 = true -> normalise d0 = Ok rules ->
   forall x, In x (spec_lines scfg fe d0 tables) <->
-            exists rl sr, In rl rules /\ r_asserted rl = true /\ In sr (tables (r_src rl)) /\ spec_rule_line scfg rl sr = Some x.
+            exists rl sr, In rl rules /\ r_asserted rl = true /\ In sr (tables (r_src rl)) /\ doc_rule_line scfg rl sr = Some x.
 Proof. exact doc_spec_is_rule_spec. Qed.
 Print Assumptions document_rules_are_rule_table_rules.
 
-(* END TO END for documents of constant / reference / template maps, N-QUADS: what the engine materialises from the
-   normalised rule table over the delivered rows (`delivered`: _preprocess_data of the rows a reader hands over) is exactly
-   what the generation rules read off the surface document over the same rows (`spec_tables`: NULL cells are null) --
-   every such document, every table, every configuration.  The per-rule hypothesis `simple_rule` (well-formed templates,
-   no reference named like a working column, literal text that needs no escaping, not all-constant) is decidable
-   (`simple_ruleb`) and is the complement of the recorded findings. *)
+(* END TO END for documents of constant / reference / template maps, N-QUADS and N-TRIPLES: what the engine materialises
+   from the normalised rule table over the delivered rows (`delivered`: _preprocess_data of the rows a reader hands over,
+   which hold every referenced column) is exactly what the generation rules read off the surface document over the same
+   rows (`spec_tables`: NULL cells are null) -- every such document, every table, every configuration.  The per-rule
+   hypothesis `simple_rule` (well-formed templates, no reference named like a working column, literal text that needs no
+   escaping, not all-constant) is decidable (`simple_ruleb`) and is the complement of the recorded findings. *)
 Theorem engine_document_is_generation_rules_document : forall cfg fe scfg raw,
-  cfg_agree cfg scfg -> c_nquads cfg = true -> s_nquads scfg = true -> s_na scfg = c_na cfg ->
+  cfg_agree cfg scfg -> c_nquads cfg = s_nquads scfg -> s_na scfg = c_na cfg ->
   forall d0 rules l, forallb plain_tm d0 = true -> normalise d0 = Ok rules -> (forall rl, In rl rules -> simple_rule rl) ->
+    (forall rl rw n, In rl rules -> In rw (raw (r_src rl)) -> In n (rule_names rl) -> assoc n rw <> None) ->
     materialize_rules cfg fe rules (delivered cfg raw) = Ok l ->
     forall x, In x l <-> In x (spec_lines scfg fe d0 (spec_tables raw)).
 Proof. exact engine_document_is_spec_document. Qed.
@@ -108,7 +110,7 @@ Proof. exact simple_ruleb_ok. Qed.
 Print Assumptions simple_rule_is_decidable.
 
 (* non-vacuity of the end-to-end statement: a document with a class, a graph map on the subject map and a language-tagged
-   reference; rows with a NULL and with an empty string in the referenced column *)
+   reference; rows with a NULL and with an empty string in the referenced column; both output formats *)
 Definition tmx (k : mkind) (v : string) : tmap := mk_tmap k (u v) CkIri None.
 Definition dx : document :=
   [{| t_id := u "#TM"; t_src := u "S"; t_nonasserted := false; t_subj := tmx KTempl "http://e/{id}"; t_sjoins := [];
@@ -117,21 +119,20 @@ Definition dx : document :=
                     p_objs := [{| o_tm := tmx KRef "name"; o_lang := Some (tmx KConst "en"); o_dt := None; o_joins := [] |}]; p_graphs := [] |}] |}].
 Definition rawx (src : ustr) : list rawrow :=
   [[(u "id", CStr (u "1")); (u "name", CStr (u "Ann"))]; [(u "id", CStr (u "2")); (u "name", CNone)]; [(u "id", CStr (u "3")); (u "name", CStr [])]].
-Definition cfgx : ecfg := {| c_nquads := true; c_printable := true; c_safe := []; c_na := [[]] |}.
-Definition scfgx : scfg := {| s_nquads := true; s_printable := true; s_safe := []; s_na := [[]] |}.
+Definition cfgx (nq : bool) : ecfg := {| c_nquads := nq; c_printable := true; c_safe := []; c_na := [[]] |}.
+Definition scfgx (nq : bool) : scfg := {| s_nquads := nq; s_printable := true; s_safe := []; s_na := [[]] |}.
 Definition fex : fenv := {| fn_params := fun _ => None; fn_apply := fun _ _ => FRaise; fn_table := [] |}.
-Example end_to_end_example :
-  forallb plain_tm dx = true /\
+Example end_to_end_example : forall nq,
+  theorem_applies nq dx = true /\
   match normalise dx with
-  | Ok rules => forallb simple_ruleb rules = true /\
-                match materialize_rules cfgx fex rules (delivered cfgx rawx) with
-                | Ok l => length l = 4%nat /\ forallb (fun x => mem x (spec_lines scfgx fex dx (spec_tables rawx))) l = true
-                          /\ length (spec_lines scfgx fex dx (spec_tables rawx)) = 4%nat
+  | Ok rules => match materialize_rules (cfgx nq) fex rules (delivered (cfgx nq) rawx) with
+                | Ok l => length l = 4%nat /\ forallb (fun x => mem x (spec_lines (scfgx nq) fex dx (spec_tables rawx))) l = true
+                          /\ length (spec_lines (scfgx nq) fex dx (spec_tables rawx)) = 4%nat
                 | Err _ => False
                 end
   | Err _ => False
   end.
-Proof. vm_compute. repeat split; reflexivity. Qed.
+Proof. intros [|]; vm_compute; repeat split; reflexivity. Qed.
 Print Assumptions end_to_end_example.
 
 (* the hypotheses are satisfiable: a template rule with a language-tagged literal object and a graph template *)
